@@ -1,9 +1,11 @@
 mod fakecli;
 mod frame;
 mod memtransport;
+mod ser;
 mod sshserver;
 mod tlsserver;
 mod util;
+mod xmlstrict;
 
 use util::Opts;
 
@@ -32,6 +34,7 @@ fn main() {
     }
     match op.as_str() {
         "frame" => frame::main(&opts),
+        "ser" => ser::main(&opts),
         _ => {
             eprintln!("unknown op {op}");
             std::process::exit(2);
